@@ -150,12 +150,13 @@ package app
 //@ ensures result == nil ==> a.logger != nil
 //@ ensures [C17,search-starts-at-the-working-directory-and-stops-at-home] result == nil && old(a.Options.Spokfile) == "" ==> candidate(foundDir, cwdPathF(), homeDirF()) && hasSpok(fsid, foundDir) && a.Options.Spokfile == absOf(absOf(join2(foundDir, "spokfile")))
 //@ ensures [C17,nearest] result == nil && old(a.Options.Spokfile) == "" ==> forall d string :: {ancOrSelf(d, cwdPathF())} candidate(d, cwdPathF(), homeDirF()) && depth(d) > depth(foundDir) ==> !hasSpok(fsid, d)
+//@ ensures [C19,only-a-file-named-spokfile-is-accepted] result == nil ==> baseOf(a.Options.Spokfile) == "spokfile"
 //@ ensures [C17,explicit-spokfile-is-used] result == nil && old(a.Options.Spokfile) != "" ==> a.Options.Spokfile == absOf(old(a.Options.Spokfile))
 
 // Run: the action dispatch. loadedOK is set when the spokfile has been read, parsed and loaded.
 //@ pred projCache(a *App) := join2(dirOf(a.Options.Spokfile), ".spok")
 //@ func (*App).Run
-//@ props C19 C20 C09 C14 C03 C12 C07
+//@ props C19 C20 C09 C14 C03 C12 C07 C11 C15
 //@ requires a.Options != nil
 //@ requires [history-invariant] forall c string :: {fexists[c]} I01(c)
 //@ modifies a.stream, a.logger, a.Options.Spokfile, foundDir, findReadErr, taskIdx, loadedOK, removed, fexists, fdata, last, ranCount, dagV, dagE, dagItem, dagN, qpos, lastGraph, runPhase, lastResults, fswrites, runCalls, stdoutDocs, listed, lastForce, fsid, dgSeq, fsSeq, execRes, fmtText, tkDepEnd, tkOutEnd, nodeTok, nodeEnd, nodeDepEnd, nodeOutEnd, strmN, strmLeft, strmDone, strmExp, strmLastT, strmInput
@@ -171,6 +172,7 @@ package app
 //@ ensures [C19,running-writes-only-inside-the-cache-directory] !a.Options.Init && !a.Options.Fmt && !a.Options.Variables && !a.Options.Clean && !a.Options.Show ==> forall p string :: {fswrites[p]} fswrites[p] && !old(fswrites)[p] ==> ancOrSelf(projCache(a), p)
 //@ ensures [C14,force-flag-reaches-the-run] runCalls != old(runCalls) ==> lastForce == a.Options.Force
 //@ ensures [C09,failing-command-fails-the-invocation] result == nil && runCalls != old(runCalls) ==> tasksOk(lastResults, len(lastResults))
+//@ ensures [C20,json-and-quiet-silence-the-stream] !a.Options.Init && !(a.Options.Quiet && a.Options.Debug) && (a.Options.JSON || a.Options.Quiet) ==> isDiscard(a.stream.Stdout) && isDiscard(a.stream.Stderr)
 //@ ensures [C20,quiet-without-json-prints-nothing-to-the-process-stdout] !a.Options.JSON ==> stdoutDocs == old(stdoutDocs)
 //@ ensures [C20,json-report-only-after-a-run-without-failures] result != nil ==> stdoutDocs == old(stdoutDocs)
 //@ at call WriteFile#0: ghost fmtText = treeStr(tree.Nodes, len(tree.Nodes))
